@@ -77,6 +77,12 @@ Theorem C23_sqrt_sqr : forall x : R, (0 <= x)%R ->
 Proof. exact sqrt_sqr_inv. Qed.
 Print Assumptions C23_sqrt_sqr.
 
+(* core::functions cbrt(x) = if x > 0 then x^(1/3) else -(-x)^(1/3), both signs (x = 0 excluded:
+   Rpower 0 y = 1 is an artefact of Coq's real-number library) *)
+Theorem C23_cbrt_cube : forall x : R, x <> 0%R -> nbt_cbrt (x ^ 3) = x.
+Proof. exact cbrt_cube. Qed.
+Print Assumptions C23_cbrt_cube.
+
 (* splitting a quantity into a list of units: the parts add up to the original ... *)
 Theorem C23_mixed_sum : forall units val acc l,
   mixed_unit_list val units acc = Some l -> qsum l == qsum acc + val.
